@@ -22,6 +22,7 @@ type Runner struct {
 	ctr         [16]uint64
 	restoreTag  uint64
 	lastCut     *Node
+	isoSet      map[*Node]bool
 }
 
 func (rn *Runner) sleepUntil(ms int) {
@@ -123,6 +124,57 @@ func (rn *Runner) doStep(st Step) {
 	case "oneway":
 		if st.N[0] != st.N[1] {
 			c.Net.SetCut(rn.node(st.N[0]).name, rn.node(st.N[1]).name, true)
+		}
+	case "isolate-follower":
+		// cut one voting follower off from everybody (the leader keeps its majority)
+		if l := c.Leader(); l != nil {
+			if in := l.Cur(); in != nil {
+				voters, _ := currentVoters(in)
+				var fs []*Node
+				for _, nd := range c.Nodes {
+					for _, v := range voters {
+						if v == nd.name && nd != l {
+							fs = append(fs, nd)
+						}
+					}
+				}
+				// the largest minority of voters that leaves the leader its majority
+				k := (len(voters) - 1) / 2
+				rn.rng.Shuffle(len(fs), func(i, j int) { fs[i], fs[j] = fs[j], fs[i] })
+				if k > len(fs) {
+					k = len(fs)
+				}
+				rn.isoSet = map[*Node]bool{}
+				var pairs [][2]string
+				for _, v := range fs[:k] {
+					rn.isoSet[v] = true
+					for _, o := range c.Nodes {
+						if o != v {
+							pairs = append(pairs, [2]string{v.name, o.name}, [2]string{o.name, v.name})
+						}
+					}
+				}
+				if len(pairs) > 0 {
+					c.Net.CutMany(pairs)
+				}
+			}
+		}
+	case "demote-other":
+		// take the vote away from a follower that is still reachable
+		if l := c.Leader(); l != nil {
+			if in := l.Cur(); in != nil {
+				voters, _ := currentVoters(in)
+				for _, nd := range c.Nodes {
+					for _, v := range voters {
+						if v == nd.name && nd != l && !rn.isoSet[nd] {
+							tgt := nd
+							op := st.S
+							rn.bg(func() { c.Membership(91, l, op, tgt, 0, 50*time.Millisecond) })
+							return
+						}
+					}
+				}
+			}
 		}
 	case "isolate-leader":
 		if l := c.Leader(); l != nil {
